@@ -179,6 +179,18 @@ func fname(fn *ssa.Function) string {
 	if fn == nil {
 		return "<nil>"
 	}
+	if fn.Synthetic != "" && fn.Pkg == nil && fn.Parent() == nil && fn.Object() != nil && fn.Prog != nil {
+		// a bound-method wrapper (x.M used as a function value) is named after the method it calls
+		if m, ok := fn.Object().(*types.Func); ok {
+			if real := fn.Prog.FuncValue(m); real != nil && real != fn {
+				suffix := ""
+				if i := strings.LastIndex(fn.Name(), "$"); i >= 0 {
+					suffix = fn.Name()[i:]
+				}
+				return fname(real) + suffix
+			}
+		}
+	}
 	if fn.Parent() != nil {
 		return fname(fn.Parent()) + "$" + strings.TrimPrefix(fn.Name(), fn.Parent().Name()+"$")
 	}
